@@ -14,6 +14,7 @@
 -/
 import BitstringModel.Model.C13
 import BitstringModel.Gen.Src
+import Mathlib.Tactic.SplitIfs
 namespace BM.C13.Src
 open BM BM.C13
 
@@ -51,6 +52,17 @@ def absoluteSliceMeaning (s : Store) : List Py.Act → Option Store
      ⟨"return L1", []⟩] => some (s.getsliceMsb0 (some a) (some b))
   | _ => none
 
+/-- Closes the leaves left after ALL guards of both sides have been split with `split_ifs` (whatever their order,
+    nesting or polarity in the source): contradictory guards (`omega`, or a literal `False`), syntactically identical
+    results (`with_reducible rfl`), or results that agree after unfolding the meaning (`simp`) up to the way the
+    index arithmetic and the numeral casts are written (`omega` / congruence + linear arithmetic by `grind`). -/
+local macro "leaf" : tactic =>
+  `(tactic| first
+    | omega
+    | (exfalso; assumption)
+    | with_reducible rfl
+    | (simp [run, Except.map, hashMeaning, absoluteSliceMeaning]; first | done | omega | grind))
+
 /-- `Bits.__hash__` as the source has it now = `C13.hashAlg 2000 800 800`, for every object of an immutable class
     (`Bits`, `ConstBitStream`), whatever its store, and for either value of `options.lsb0`.
     The hypothesis `o.cls.isMutable = false`: `hashAlg`'s first line answers TypeError for the mutable classes; that
@@ -60,13 +72,8 @@ def absoluteSliceMeaning (s : Store) : List Py.Act → Option Store
 theorem hash_eq (lsb0 : Bool) (o : Obj) (hcls : o.cls.isMutable = false) :
     run (hashMeaning o) (Gen.Src.hash (o.store.len : Int)) = some (hashAlg 2000 800 800 lsb0 o) := by
   unfold Gen.Src.hash hashAlg
-  simp only [hcls, Bool.false_eq_true, if_false, decide_eq_true_eq, List.nil_append, List.cons_append]
-  by_cases h : o.store.len ≤ 2000
-  · have h' : (o.store.len : Int) ≤ 2000 := by omega
-    simp only [h, h', if_true, run, hashMeaning, Int.toNat_natCast]
-  · have h' : ¬ (o.store.len : Int) ≤ 2000 := by omega
-    simp only [h, h', if_false, run, hashMeaning, Int.toNat_natCast]
-    rfl
+  simp [hcls]
+  split_ifs <;> leaf
 
 /-- `Bits._absolute_slice` as the source has it now = `C13.absoluteSlice`, for every store and every pair of
     integers (the `assert start < end` included: both sides answer AssertionError when `end < start`).
@@ -75,9 +82,8 @@ theorem absolute_slice_eq (s : Store) (start stop : Int) :
     (Gen.Src.absolute_slice (s.len : Int) start stop).map (absoluteSliceMeaning s)
       = (absoluteSlice s start stop).map some := by
   unfold Gen.Src.absolute_slice absoluteSlice
-  by_cases h1 : stop = start
-  · simp [h1, Except.map, absoluteSliceMeaning]
-  · by_cases h2 : start < stop <;> simp [h1, h2, Except.map, absoluteSliceMeaning]
+  simp [Except.map]
+  split_ifs <;> leaf
 
 /-- Non-vacuity: a short object takes the whole-value trace … -/
 example : run (hashMeaning ⟨.bits, { raw := [true, false, true] }, 0⟩) (Gen.Src.hash 3)
